@@ -122,11 +122,18 @@ CLAIMS = {
              "and context error, ties to the returned one (c06_parse_prefers_further); the text is exactly 'failed to parse the "
              "input: <expectation> at <file>:<line>:<column>' with line/column of that position by C11 (c06_text); EXACTNESS - every "
              "logged terminal failure is at or before the reported position unless a curtailment lies beyond it, so without "
-             "curtailment beyond the furthest failure the reported position EQUALS it (run_low, c06_exact_partial). PARTIAL: the "
-             "upper bound for named grammars needs Productive (c06_upper_needs_productive proves the D8 witness inside the model; "
-             "the general statement under Productive is open), exactness without the curtailment side condition is open; both "
-             "statements are kept in Props/C06.lean and are decided per case by the probe-based oracle (furthest failing terminal "
-             "from wrappers around every terminal of the real grammar).",
+             "curtailment beyond the furthest failure the reported position EQUALS it (run_low, c06_exact_partial). UNDER THE "
+             "DECIDABLE CERTIFICATE Prod.productive (Spec/Productive.lean: every nonterminal derives a string, witnessed by ranks, "
+             "and every position where an error is kept next to a result - Optional, Many/SepBy allowing empty, a sequence element "
+             "reached without consumption - is productive below every memoized parser still active there) BOTH halves hold for named "
+             "and unnamed grammars with left recursion and NO curtailment side condition: c06_upper_productive, c06_lower_productive, "
+             "c06_exact_productive (reported position = furthest failing terminal, and a terminal failed exactly there), also for the "
+             "certificate computed by Prod.productiveAuto (c06_*_auto) - Props/C06P.lean, 3 inductions over all cases of run. The "
+             "certificate is NECESSARY: plain CFG-productivity is not enough (c06_d12_cfg_productive_not_enough, finding D12 = the "
+             "C06 face of D9) and every certificate rejects the D8 and D12 shapes (c06_d8_not_productive, c06_d12_not_productive). "
+             "PARTIAL only in that the certificate's hypotheses (C02's wf, single-byte terminals scope) bound the grammars covered; "
+             "outside them the probe-based oracle decides per case (furthest failing terminal from wrappers around every terminal "
+             "of the real grammar; line:column re-rendered canonically from the offset).",
         note="Known finding D8 (an unproductive named nonterminal reports its own start). SuppressError breaks exactness by design "
              "(c06_exact_needs_no_suppress). A Sequence whose last node has token \"EOF\" (e.g. Word(\"eof\")) stops enumerating: excluded (LocLow).",
         technique="Lean 4 invariant proofs over the parser model with a ghost failure log (provenance and lower-bound inductions on fuel) + probe-based oracle on the real code + differential correspondence"),
@@ -277,10 +284,15 @@ CLAIMS = {
              "calls on a b^(n-1) (c17_closed_PbA / c17_closed_PbA_all - 298 at n = 20, the suite's pinned value - by induction over "
              "the left spine with an explicit description of the cache after each level), nested brackets 5k+5, separated lists 2k+4 "
              "(c17_closed_brackets, c17_closed_seplist), hence doubling the input multiplies the count by at most 4 resp. 2 "
-             "(c17_double_*). Bounded checks only (decide +kernel, labelled): hidden and mutual left recursion on their measured "
-             "curves for small n; no closed form for the arithmetic family. For all six families the compiled model and the real "
-             "library are run at doubling lengths up to 128/256 bytes, counts must agree exactly, be equal on a re-built grammar and "
-             "satisfy calls(2n) <= 16 calls(n) - bounded exploration.",
+             "(c17_double_*). Props/C17B.lean adds, again for EVERY length: hidden left recursion (n^2+11n+20)/2 (c17_closed_hidden), "
+             "the mutual pair 3k^2+18k+22 (c17_closed_mutual), P -> P b | P c | a exactly n^2+8n+12 (+ n/2-1 for even n) "
+             "(c17_closed_PbPcA), the left-recursive ARITHMETIC grammar E/T/F over every operator string in {*,+}: exact count arCalls "
+             "ops, <= 5(n+2)^2 and >= (36k^2+85k+51)/8 (c17_closed_arith, c17_quadratic_arith, c17_arith_lower; c17_arith_pinned gives "
+             "146, 336, ... 41932 at the suite's lengths), the four-operator variant within a window of width k (c17_closed_arith2), "
+             "and calls(2n) <= 16 calls(n) for ALL n in every family (c17_double_*). Still open: one bound for all unambiguous "
+             "grammars (needs a bound on result-list sizes). For all eight families the compiled model and the real library are run "
+             "at doubling lengths up to 128/256 bytes, counts must agree exactly, be equal on a re-built grammar and satisfy "
+             "calls(2n) <= 16 calls(n) - bounded exploration that ties the closed forms to the code.",
         note="Wall-clock time and allocations are outside the model; the property speaks of call counts only.",
         technique="Lean 4 theorems (determinism, call accounting, closed forms by induction on the input length) + exact call-count agreement in the differential run at doubling lengths"),
 }
